@@ -18,14 +18,14 @@ CFG = cfg('C20', refine=['Refine_message'], extract='Ex_C20', driver='c20',
                        '`sig is self._signatures[0]`) reached only through the correspondence run',
                        'nothing of C20 is translated by py2coq; the tie is the correspondence run + pinned source text of PGPMessage.__iter__ / __bytearray__'])
 
-TEXT = ('Rocq theorems (Props/C20.v, 38 statements, closed under the global context): for every literal, compression algorithm and every list of '
+TEXT = ('Rocq theorems (Props/C20.v, 39 statements, closed under the global context): for every literal, compression algorithm and every list of '
         'signatures added in any order at any times the export is derivable from the RFC 4880 11.3 grammar (inductive transcription; the boolean checker '
         'used at run time is proved sound and complete for it); the i-th one-pass packet describes the (n-1-i)-th signature, their number equals the '
         'number of signatures, only the last carries flag 1 and the RFC 5.4 flag rule holds on the whole export; the compression packet wraps the whole '
         'signed sequence (packet and octet level); encrypted messages are signatures* ESK+ one container for every history of encrypt / sign steps; '
         'import(export) returns the same state (content, name, time, format, compression, signature list) at packet level and, under the premise '
         'decompress(compress x) = x on the primitive, at octet level (parse(emit) for every well-formed nested packet sequence, fuel sufficiency in the '
-        'statement); literal / one-pass body codecs round-trip with following data untouched and agree with independent RFC 5.9 / 5.4 decoders; the literal body parser accepts ONLY what the RFC 5.9 decoder accepts and never reads beyond the declared length (C20_lit_parse_only_rfc; repair 08ffd01); a time '
+        'statement); literal / one-pass body codecs round-trip with following data untouched and agree with independent RFC 5.9 / 5.4 decoders; the literal body parser accepts ONLY what the RFC 5.9 decoder accepts and never reads beyond the declared length (C20_lit_parse_only_rfc; repair 08ffd01), and at packet level a literal (tag 11) or modification detection code (tag 19) packet leaves the octets after its declared body untouched or is refused (C20_literal_mdc_confined; repairs 9b50cd0 / 08ffd01); a time '
         'that does not fit four octets is refused; text of format t / u reads back as the text that went in for every Unicode string (strict UTF-8 '
         'decoder modelled and proved to invert the encoder), non-UTF-8 t data of other producers stays readable as latin-1; partial-length and '
         'old-format framings are parsed to the same packet. The rules before the repairs (one-pass flags, five-octet time, latin-1 read-back) are '
